@@ -57,7 +57,7 @@ func callTotal(c inputCase) []vf.Finding {
 	if e == nil {
 		return []vf.Finding{vf.F("harness", "bad-case", "unknown entry %s", c.Entry)}
 	}
-	in := append([]byte{}, c.Input...)
+	in := exact(c.Input)
 	if wd != nil {
 		wd.Enter(c.Entry, c)
 		defer wd.Leave()
@@ -68,6 +68,15 @@ func callTotal(c inputCase) []vf.Finding {
 		fs = append(fs, vf.F(c.Entry, "alloc", "%d bytes allocated for a %d-byte input", grew, len(c.Input)))
 	}
 	return fs
+}
+
+// exact copies b into a slice whose capacity equals its length: re-slicing past the end of the
+// input (legal in Go while spare capacity exists) then panics instead of silently reading the
+// allocator's padding, so an over-read by a few bytes is as visible as an out-of-range index.
+func exact(b []byte) []byte {
+	in := make([]byte, len(b))
+	copy(in, b)
+	return in[:len(in):len(in)]
 }
 
 func nontrivial(c inputCase) bool { return len(c.Input) >= 2 && c.How != "seed" }
@@ -111,6 +120,7 @@ func mutations(seed []byte, text bool, yield func(b []byte, how string)) {
 		}
 	}
 	if text {
+		textMutations(seed, yield)
 		return
 	}
 	// 16- and 32-bit windows driven to extremes (both byte orders where it matters)
@@ -152,6 +162,51 @@ func mutations(seed []byte, text bool, yield func(b []byte, how string)) {
 	}
 }
 
+// textMutations: structure-level edits of a text input – single characters deleted, separators
+// inserted, and whole tokens (maximal alphanumeric runs) removed with or without a neighbouring
+// separator, or doubled. "a.b.c.d/len" loses an octet, "{…}" loses a group, "user:LM:NT" a field.
+func textMutations(seed []byte, yield func(b []byte, how string)) {
+	n := len(seed)
+	if n > 200 {
+		return
+	}
+	cat := func(parts ...[]byte) []byte {
+		var o []byte
+		for _, p := range parts {
+			o = append(o, p...)
+		}
+		return o
+	}
+	for i := 0; i < n; i++ {
+		yield(cat(seed[:i], seed[i+1:]), "delete-char")
+	}
+	for i := 0; i <= n; i++ {
+		for _, sep := range []byte{'.', '/', ':', '-', ',', '{', '}', ' '} {
+			yield(cat(seed[:i], []byte{sep}, seed[i:]), "insert-separator")
+		}
+	}
+	isTok := func(c byte) bool { return c >= '0' && c <= '9' || c >= 'a' && c <= 'z' || c >= 'A' && c <= 'Z' }
+	for i := 0; i < n; {
+		if !isTok(seed[i]) {
+			i++
+			continue
+		}
+		j := i
+		for j < n && isTok(seed[j]) {
+			j++
+		}
+		yield(cat(seed[:i], seed[j:]), "delete-token")
+		if i > 0 {
+			yield(cat(seed[:i-1], seed[j:]), "delete-token") // with the separator before it
+		}
+		if j < n {
+			yield(cat(seed[:i], seed[j+1:]), "delete-token") // with the separator after it
+			yield(cat(seed[:j+1], seed[i:j+1], seed[j+1:]), "double-token")
+		}
+		i = j
+	}
+}
+
 func TestSystematic(t *testing.T) {
 	quiet()
 	s := vf.Begin(t, P, "systematic")
@@ -166,6 +221,17 @@ func TestSystematic(t *testing.T) {
 					s.Class(how)
 					yield(inputCase{e.Name, b, how})
 				})
+			}
+		}
+		for _, b := range smbCountFaults() {
+			s.Class("count-fault")
+			yield(inputCase{"smb.Message.Unmarshal", b, "count-fault"})
+			// and cut short: the lying count now also points past the end of the message
+			for _, k := range []int{len(b) - 1, len(b) - 2, len(b) - 4, len(b) / 2} {
+				if k > 32 {
+					s.Class("count-fault")
+					yield(inputCase{"smb.Message.Unmarshal", b[:k], "count-fault"})
+				}
 			}
 		}
 	}, callTotal, nontrivial)
